@@ -5,6 +5,7 @@ type-dispatching entry point; the marginal / joint callables are counting harnes
 points were evaluated is observed); the marginal sampler's randomness goes through a RandomTap.
 Oracle: direct formulas in exact rational arithmetic; chi-square (two-stage protocol) in sampling mode.
 """
+import math
 import random
 from collections import Counter
 from fractions import Fraction
@@ -175,19 +176,34 @@ def run_case(case):
         if T == 1 and rng.random() < 0.2:
             bounds = [(rng.choice([0, 1, 250]), rng.choice([300, 400]))]           # degrees beyond 255
         calls = []
-        style = rng.choice(["table", "formula"])
+        style = rng.choice(["table", "formula", "formula", "intarith"])
+        if style == "intarith":
+            # a joint function doing exact INTEGER arithmetic on the degrees it is handed (binomial weights comb(n,k) a^k b^(n-k) / (a+b)^n,
+            # or the library's own poisson with an int-typed mean, which computes mean**k): the values pass 2**63 inside the box
+            bounds = [(rng.choice([0, 1]), rng.randint(40, 58))] + [(0, rng.randint(1, 3)) for _ in range(T - 1)]
+            res.count("integer_arithmetic_joint_functions")
+        n_, a_ = 60, rng.choice([1, 3])
+        pois = gcmpy.poisson(rng.choice([3, 4, 9]))
+        which = rng.choice(["binomial", "poisson_int"])
         box = list(product(*[range(a, b + 1) for a, b in bounds]))
         tab = {jd: rng.choice([0.0, 0.125, 0.5, 1.0, 2.0]) for jd in box}
+
+        def formula(jd):
+            if style == "intarith":
+                k = jd[0]
+                v = (math.comb(n_, int(k)) * a_ ** k * 3 ** (n_ - k) / (a_ + 3) ** n_) if which == "binomial" else float(pois(k))
+                return v / (1 + sum(jd[1:]))
+            return 1.0 / (1.0 + sum(jd) + jd[0] * jd[-1])
 
         def fp(jd):
             calls.append(tuple(jd))
             if style == "table":
                 return tab[tuple(jd)]
-            return 1.0 / (1.0 + sum(jd) + jd[0] * jd[-1])
+            return formula(jd)
         got = both(gcmpy.JointDegreeFunction, "function", {N.FP: fp, N.MOTIF_SIZES: sizes, N.LOW_HIGH_DEGREE_BOUND: bounds})
         if got is None:
             return res
-        want = {jd: (tab[jd] if style == "table" else 1.0 / (1.0 + sum(jd) + jd[0] * jd[-1])) for jd in box}
+        want = {jd: (tab[jd] if style == "table" else formula(jd)) for jd in box}
         res.count("box_points_evaluated", len(set(calls) & set(box)))
         if set(calls) != set(box):
             res.violate("joint-function-not-evaluated-on-the-whole-box", missing=sorted(set(box) - set(calls))[:5],
